@@ -1234,7 +1234,9 @@ func runC08(c *CaseCtx) *CaseResult {
 			continue
 		}
 		if th != trace0 {
-			first.fail(viol("harness", "schedule %q produced a different operation list (harness determinism)", sc.name))
+			// positions are drawn relative to the slab boundaries of the live tree, so the operation list can only differ
+			// when the TREE SHAPE differs between schedules (everything else is drawn from the case PRNG alone)
+			first.fail(viol("cache-structure", "under schedule %q the generated operation list (positions follow the slab boundaries of the tree) differs from schedule %q: the shape of the tree depends on what was in the cache", sc.name, schedules[0].name))
 			return first
 		}
 		firstW.stats.Extra["schedules-compared"]++
